@@ -382,7 +382,18 @@ func impValues() []interface{} {
 		json.Number("9223372036854775808"), json.Number("1632518460"), "", "abc", "12", "-7", "1.5", "true", "AQ==", "AAAAAAAAAAA=", "AQIDBA==", "2021-09-24",
 		"2021-09-24T21:21:00Z", "2021-09-24T21:21:00+05:30", []interface{}{json.Number("1")}, []interface{}{}, map[string]interface{}{"a": json.Number("1")},
 		int(7), int8(-3), uint16(65535), int64(math.MinInt64), uint64(math.MaxUint64), float64(1.5), float32(2), float64(1e300), math.NaN(), []byte{1}, []byte{1, 2, 3, 4, 5, 6, 7, 8},
-		[]byte("12"), time.Unix(1632518460, 0).UTC(), struct{ A int }{1}, (*int)(nil)}
+		[]byte("12"), time.Unix(1632518460, 0).UTC(), struct{ A int }{1}, (*int)(nil),
+		// a nested object as the reader of a row delivers it (a Row): a column declared with a raw type holds a value
+		// of that type or null afterwards, as with any other input
+		jsonline.NewRow(), rowOf("a", json.Number("1"), "b", "x")}
+}
+
+func rowOf(kv ...interface{}) jsonline.Row {
+	r := jsonline.NewRow()
+	for i := 0; i+1 < len(kv); i += 2 {
+		r.Set(kv[i].(string), kv[i+1])
+	}
+	return r
 }
 
 func defaultTyOf(f string) string {
